@@ -24,7 +24,7 @@ ASSUMPTIONS = ["the scripted coupling process stands for any coupling process (t
                "kurtosis is compared on profiles whose per-level sample variance is >= 1 (below, the statement does not fix the formula)",
                "sample budget 2e6 per run: beyond it the run is inconclusive, not a violation"]
 REQUIRED_COUNTERS = ["runs_adaptive", "runs_fixed_level", "rows_checked", "levels_added_late", "multi_pass_runs", "add_events",
-                     "vector_payoff_runs", "control_variate_runs", "control_rows_checked", "adjusted_series_checks", "price_checks", "multi_process_runs"]
+                     "vector_payoff_runs", "control_variate_runs", "control_rows_checked", "adjusted_series_checks", "price_checks", "multi_process_runs", "scripted_allocation_histories"]
 MIN_NONTRIVIAL = {"quick": 40, "thorough": 500}
 SHARD_TIMEOUT = {"quick": 900, "thorough": 7200}
 
@@ -45,7 +45,42 @@ def gen_cases(tier, seed):
             # samples simulated by a pool of two worker processes (scalar payoff, no control): small runs, the pools are slow to start
             cases[-1].update({"workers": 2, "dim": 1, "ncv": 0, "budget": 3000, "rmse_exp": float(rng.uniform(-0.9, -0.3)), "N0": int(rng.choice([5, 20])),
                               "Lmax_extra": int(rng.integers(0, 3)), "variant": "adaptive"})
+    # scripted allocation histories (a convergence-criteria object written here): small top-ups (below and above 1%) next to large ones, level
+    # additions in between -- every sequence of passes is legal for the engine, the reported figures come from exactly the simulated samples
+    for i in range(12 if tier == "quick" else 200):
+        cases.append({"seed": int(rng.integers(2**31)), "profile": ["geometric", "slow-decay"][i % 2], "variant": "adaptive", "rmse_exp": -1.0, "budget": 150_000,
+                      "L0": int(rng.choice([0, 1, 2])), "N0": int(rng.choice([100, 150, 400])), "Lmax_extra": int(rng.integers(1, 4)), "beta": 1.5, "alpha": 1.0,
+                      "rates_given": True, "scale": 1.0, "dim": 1, "ncv": 0, "cv_prices": "scalar",
+                      "script": [[float(rng.choice([1.0, 1.004, 1.008, 1.012, 1.05, 1.5, 2.2])) for _ in range(8)] for _ in range(int(rng.integers(3, 9)))],
+                      "tests_failed": int(rng.integers(0, 3))})
     return cases
+
+
+def scripted_criteria(case):
+    """a ConvergenceCriteria whose allocation replays the scripted factors (relative to what has been simulated so far) and whose stopping
+    test fails a given number of times"""
+    from rpylib.montecarlo.multilevel.criteria import ConvergenceCriteria
+
+    state = {"current": None, "call": 0, "tests": 0}
+
+    def compute(rmse, vl, cl):
+        n = len(vl)
+        cur = state["current"]
+        if cur is None:
+            cur = np.full(n, case["N0"], dtype=float)
+        if len(cur) < n:
+            cur = np.append(cur, [0.0] * (n - len(cur)))
+        row = case["script"][min(state["call"], len(case["script"]) - 1)] if state["call"] < len(case["script"]) else [1.0] * 8
+        state["call"] += 1
+        ns = np.array([math.ceil(cur[k] * row[k % len(row)]) if cur[k] > 0 else 7 for k in range(n)], dtype=int)
+        state["current"] = np.maximum(cur, ns).astype(float)
+        return ns
+
+    def criteria(alpha, ml, rmse):
+        state["tests"] += 1
+        return state["tests"] > case["tests_failed"]
+
+    return ConvergenceCriteria(criteria=criteria, compute_mc_paths=compute)
 
 
 def make_profile(case):
@@ -79,7 +114,7 @@ def make_profile(case):
         return fine, coarse
 
     def cost(l):
-        c = 2.0 ** (1.0 * l)
+        c = 2.0 ** (1.0 * l) * 1.0731 + 0.3183          # (not a whole number: cost x pass size has a fractional part)
         if kind == "cost-spike" and l == 3:
             c *= 40.0
         return c
@@ -180,6 +215,9 @@ def run_case(case, R):
     workers = int(case.get("workers", 1))
     if workers > 1:
         R.hit("multi_process_runs")
+    if case.get("script"):
+        conf_kw["convergence_criteria"] = scripted_criteria(case)
+        R.hit("scripted_allocation_histories")
     conf = ConfigurationMultiLevel(convergence_rates=rates, initial_level=L0, maximum_level=Lmax, initial_mc_paths=N0, seed=7, nb_of_processes=workers, **conf_kw)
     wit = {"case": case, "rmse": rmse}
     eng = Engine(conf, cp)
